@@ -16,6 +16,9 @@ func init() {
 		},
 	}, map[string]propSpec{
 		"C01": {level: "exploration", quickS: 40, thoroughS: 900,
+			// second stage: the same property seen from the HTTP layer (routes.go scheduleRunner,
+			// handlers holding a runner for the duration of a completion) in the H-api world
+			extra:  []stageSpec{{harness: "api", quickS: 20, thoroughS: 300}},
 			probes: []string{"grant", "load_fail", "explicit_unload", "cancel_before_grant", "cancel_while_loading"}},
 		"C02": {level: "exploration", quickS: 40, thoroughS: 900,
 			probes: []string{"grant", "queue_full", "drain_complete", "load_fail"}},
